@@ -19,6 +19,12 @@ Arguments N.of_nat : simpl never.
 
 Fixpoint pow128 (k : nat) : N := match k with O => 1 | S j => 128 * pow128 j end.
 
+Lemma lo7_mod : forall n, lo7 n = n mod 128.
+Proof. intros n. unfold lo7. change 127 with (N.ones 7). rewrite N.land_ones. reflexivity. Qed.
+
+Lemma hi7_div : forall n, hi7 n = n / 128.
+Proof. intros n. unfold hi7. rewrite N.shiftr_div_pow2. reflexivity. Qed.
+
 Lemma dec_enc_raw :
   forall fuel n first rest,
     n < pow128 (S fuel) -> (first = false -> n <> 0) ->
@@ -30,7 +36,7 @@ Proof.
     cbn [app varint_dec_raw]. rewrite E.
     destruct first; cbn [negb]; [rewrite andb_false_r; reflexivity|].
     destruct (n =? 0) eqn:Z; [specialize (Hnz eq_refl); lia|]. reflexivity.
-  - cbn [varint_enc_f].
+  - cbn [varint_enc_f]. rewrite lo7_mod, hi7_div.
     destruct (n <? 128) eqn:E.
     + cbn [app varint_dec_raw]. rewrite E.
       destruct first; cbn [negb]; [rewrite andb_false_r; reflexivity|].
@@ -71,7 +77,7 @@ Lemma enc_len_le : forall fuel n, (length (varint_enc_f fuel n) <= S fuel)%nat.
 Proof.
   induction fuel as [|f IH]; intros n; cbn [varint_enc_f];
     destruct (n <? 128); cbn [length]; try lia.
-  specialize (IH (n / 128)). lia.
+  specialize (IH (hi7 n)). lia.
 Qed.
 
 Lemma enc_len_pos : forall fuel n, (1 <= length (varint_enc_f fuel n))%nat.
@@ -91,7 +97,7 @@ Proof.
   induction fuel as [|f IH]; intros x y H; cbn [varint_enc_f].
   - destruct (x <? 128); destruct (y <? 128); cbn [length]; lia.
   - destruct (x <? 128) eqn:Ex; destruct (y <? 128) eqn:Ey; cbn [length]; try lia.
-    specialize (IH (x / 128) (y / 128) ltac:(apply N.div_le_mono; lia)). lia.
+    specialize (IH (hi7 x) (hi7 y) ltac:(rewrite !hi7_div; apply N.div_le_mono; lia)). lia.
 Qed.
 
 Lemma vlen_mono : forall x y, x <= y -> vlen x <= vlen y.
